@@ -31,6 +31,9 @@ pub struct PuppetSpec {
     pub fin: Fin,
     /// number of script items (data, then the terminal) a Listen puppet emits inside its greeting
     pub burst: usize,
+    /// the terminal follows the last datum in the same call (a source that knows it is exhausted,
+    /// like take's output) instead of waiting for the next Pull / driver step
+    pub eager_end: bool,
 }
 
 #[derive(Debug)]
@@ -246,8 +249,17 @@ impl<T: Clone + Send + Sync + 'static> Puppet<T> {
         };
         match what {
             What::Data(v, t) => {
-                let _f = self.world.enter(sub.edge, Dir::Down, Kind::Data, v, -1);
-                (sub.sink)(Message::Data(t));
+                {
+                    let _f = self.world.enter(sub.edge, Dir::Down, Kind::Data, v, -1);
+                    (sub.sink)(Message::Data(t));
+                }
+                if self.spec.eager_end && self.spec.fin != Fin::Never {
+                    let last = { sub.st.lock().unwrap().pos >= self.items.len() };
+                    if last {
+                        // re-reads ended/stopped: a disposal from inside the datum suppresses it
+                        self.emit_next(sub);
+                    }
+                }
             },
             What::End => {
                 let _f = self.world.enter(sub.edge, Dir::Down, Kind::Terminate, Val::none(), -1);
